@@ -17,7 +17,8 @@ Record tables := {
   t_uuid : list (N * str);
   t_b64 : list (list N * str);
   t_pickle : list (pyval * list N * pyval);         (* value, pickle.dumps, pickle.loads of that *)
-  t_json : list (pyval * res (str * pyval))         (* value, json.dumps and json.loads of that / the error *)
+  t_json : list (pyval * res (str * pyval));        (* value, json.dumps and json.loads of that / the error *)
+  t_str : list (pyval * str)                        (* value, str(value) *)
 }.
 
 Fixpoint assoc {K V} (eqb : K -> K -> bool) (k : K) (l : list (K * V)) : option V :=
@@ -52,7 +53,8 @@ Definition mk_codecs (t : tables) : codecs := {|
                      | Some v => v | None => PNone end;
   uuid_str := fun n => match assoc N.eqb n (t_uuid t) with Some s => s | None => [] end;
   uuid_parse := fun s => match assoc str_eqb s (map (fun p => (snd p, fst p)) (t_uuid t)) with
-                         | Some n => Ok n | None => Raise E_Value end
+                         | Some n => Ok n | None => Raise E_Value end;
+  py_str := fun v => match assoc pyval_eqb v (t_str t) with Some s => s | None => [] end
 |}.
 
 Record obs := {
@@ -78,6 +80,7 @@ Record case := {
   c_decl : str;                           (* the type name PRAGMA table_info reports for the column *)
   c_indom : bool;                         (* the oracle's (Python) reading of "v is in the column's documented domain" *)
   c_kindok : bool;                        (* the classifier's (Python) reading of the date/time trigger classes *)
+  c_norm : option (res pyval);            (* the oracle's (Python) documented normalisation of date/time crossings *)
   c_tab : tables;
   c_obs : obs
 }.
@@ -113,6 +116,7 @@ Definition agree (c : case) : bool :=
   (* the theorems' domain predicate is the oracle's; real Python objects are well-formed *)
   Bool.eqb (in_domain (c_col c) (c_val c)) (c_indom c) && wf (c_val c) &&
   Bool.eqb (kind_ok (c_col c) (c_val c)) (c_kindok c) &&
+  option_eqb rp_eqb (norm_spec (c_col c) (c_val c)) (c_norm c) &&
   (* did the write return; the exception class if not *)
   res_eqb unit_eqb (o_write o) (ob_w b) &&
   Bool.eqb (o_row o) (ob_row b) &&
